@@ -187,6 +187,74 @@ Fixpoint run_groups (e : env) (k : rkind) (gs : list group) (w : stores) (moved 
 Definition run_round (e : env) (k : rkind) (m : smap) (idx : index) (w : stores) : pf_out :=
   run_groups e k (collect m idx) w 0 0.
 
+(* ---- remotes with a tmp_dir: a REAL persistent ObjectDBIndex (get_index(data.odb)) --------------
+   push hands it to transfer as dest_index, fetch as src_index; it lives on disk, so it is carried
+   from group to group and from round to round, per remote.  A remote that is not in the map has
+   no tmp_dir: ObjectDBIndexNoop, i.e. [group_in] above.  (A tmp_dir on a CACHE has no effect:
+   only data.odb's index is ever opened.) *)
+Definition ixmap := list (sid * rindex).
+Fixpoint iget (x : ixmap) (s : sid) : option rindex :=
+  match x with
+  | [] => None
+  | (k, ix) :: r => if N.eqb k s then Some ix else iget r s
+  end.
+Definition iset (x : ixmap) (s : sid) (ix : rindex) : ixmap := (s, ix) :: x.
+
+Definition group_in_ix (e : env) (k : rkind) (w : stores) (x : ixmap) (g : group) (c : sid) : t_in :=
+  match iget x (g_data g) with
+  | None => group_in e k w g c
+  | Some ix =>
+      match k with
+      | RPush =>
+          {| t_src := sget w c; t_dst := sget w (g_data g); t_cache := Some (sget w (g_data g));
+             t_parse := e_parse e; t_corrupt := fun _ => false; t_req := g_req g;
+             t_shallow := true; t_verify := false; t_dix := Some ix; t_six := None;
+             t_dnoop := false; t_snoop := false;
+             t_fails := e_fails e (g_data g); t_part := fun _ => false; t_trunc := fun _ => [];
+             t_dord := e_dord e; t_bord := e_bord e |}
+      | RFetch =>
+          {| t_src := sget w (g_data g); t_dst := sget w c; t_cache := Some (sget w c);
+             t_parse := e_parse e; t_corrupt := fun _ => false; t_req := g_req g;
+             t_shallow := true; t_verify := false; t_dix := None; t_six := Some ix;
+             t_dnoop := false; t_snoop := false;
+             t_fails := e_fails e c; t_part := fun _ => false; t_trunc := fun _ => [];
+             t_dord := e_dord e; t_bord := e_bord e |}
+      end
+  end.
+(* the remote's index after the transfer *)
+Definition ix_after (k : rkind) (x : ixmap) (g : group) (i : t_in) : ixmap :=
+  match iget x (g_data g) with
+  | None => x
+  | Some _ =>
+      match (match k with RPush => w_dix (final_world i) | RFetch => w_six (final_world i) end) with
+      | Some ix' => iset x (g_data g) ix'
+      | None => x
+      end
+  end.
+
+Fixpoint run_groups_ix (e : env) (k : rkind) (gs : list group) (w : stores) (x : ixmap)
+         (moved failed : N) : pf_out * ixmap :=
+  match gs with
+  | [] => ({| p_w := w; p_moved := moved; p_failed := failed; p_err := None |}, x)
+  | g :: r =>
+      match g_cache g with
+      | None => ({| p_w := w; p_moved := moved; p_failed := failed; p_err := Some 98 |}, x)
+      | Some c =>
+          if N.eqb c (g_data g) then run_groups_ix e k r w x moved failed
+          else
+            let i := group_in_ix e k w x g c in
+            match o_outcome (transfer i) with
+            | TErr kd => ({| p_w := w; p_moved := moved; p_failed := failed; p_err := Some kd |}, x)
+            | TOk tr fl =>
+                run_groups_ix e k r (sset w (group_dst k g c) (w_dst (final_world i))) (ix_after k x g i)
+                              (moved + count tr) (failed + count fl)
+            end
+      end
+  end.
+Definition run_round_ix (e : env) (k : rkind) (m : smap) (idx : index) (w : stores) (x : ixmap)
+  : pf_out * ixmap :=
+  run_groups_ix e k (collect m idx) w x 0 0.
+
 (* ---- index checkout from the cache the mapping designates for each key ---- *)
 Definition cache_of (m : smap) (k : key) : option sid :=
   match getitem m k with Some si => si_cache si | None => None end.
@@ -217,6 +285,7 @@ Record scen := {
   s_parse : list (bytes * list oid);
   s_stores : stores;
   s_sids : list sid;                         (* the stores to list after every round *)
+  s_ix : list sid;                           (* the remotes that have a tmp_dir (index empty at first) *)
   s_rounds : list round;
   s_checkout : option smap }.                (* finally: index checkout through this map *)
 
@@ -236,21 +305,31 @@ Definition enc_key (k : key) : val := VL (map VB k).
 Definition enc_group (g : group) : val :=
   VL [VN (g_data g); enc_option VN (g_cache g); enc_set (g_req g)].
 
-Fixpoint run_rounds (sc : scen) (rs : list round) (w : stores) : list val :=
+Definition enc_rindex (ix : rindex) : val :=
+  enc_set (map (fun o => o ++ 47 :: match ix_get o ix with Some true => [1] | _ => [0] end) (ix_keys ix)).
+Definition enc_ixmap (sids : list sid) (x : ixmap) : val :=
+  VL (map (fun s => match iget x s with Some ix => enc_rindex ix | None => VL [] end) sids).
+
+Fixpoint run_rounds (sc : scen) (rs : list round) (w : stores) (x : ixmap) : list val :=
   match rs with
   | [] => []
   | r :: rest =>
-      let out := run_round (mk_env sc r) (r_kind r) (r_map r) (s_idx sc) w in
+      let ox := run_round_ix (mk_env sc r) (r_kind r) (r_map r) (s_idx sc) w x in
+      let out := fst ox in
       VL [ VL (map enc_group (collect (r_map r) (s_idx sc)));
            enc_option VN (p_err out); VN (p_moved out); VN (p_failed out);
-           enc_world (s_sids sc) (p_w out) ]
-      :: run_rounds sc rest (p_w out)
+           enc_world (s_sids sc) (p_w out);
+           enc_ixmap (s_ix sc) (snd ox) ]
+      :: run_rounds sc rest (p_w out) (snd ox)
   end.
-Fixpoint final_stores (sc : scen) (rs : list round) (w : stores) : stores :=
+Fixpoint final_stores (sc : scen) (rs : list round) (w : stores) (x : ixmap) : stores :=
   match rs with
   | [] => w
-  | r :: rest => final_stores sc rest (p_w (run_round (mk_env sc r) (r_kind r) (r_map r) (s_idx sc) w))
+  | r :: rest =>
+      let ox := run_round_ix (mk_env sc r) (r_kind r) (r_map r) (s_idx sc) w x in
+      final_stores sc rest (p_w (fst ox)) (snd ox)
   end.
+Definition ix0 (sc : scen) : ixmap := map (fun s => (s, [])) (s_ix sc).
 
 (* resolution alone (dense enumeration against the real __getitem__) *)
 Definition enc_sinfo (s : sinfo) : val :=
@@ -271,8 +350,8 @@ Definition enc_checkout (l : list (key * option bytes)) : val :=
                               | None => []
                               end) l).
 Definition run_scen (sc : scen) : val :=
-  VL [ VL (run_rounds sc (s_rounds sc) (s_stores sc));
+  VL [ VL (run_rounds sc (s_rounds sc) (s_stores sc) (ix0 sc));
        match s_checkout sc with
        | None => VL []
-       | Some m => enc_checkout (checkout_view m (s_idx sc) (final_stores sc (s_rounds sc) (s_stores sc)))
+       | Some m => enc_checkout (checkout_view m (s_idx sc) (final_stores sc (s_rounds sc) (s_stores sc) (ix0 sc)))
        end ].
